@@ -124,7 +124,10 @@ func runC17(c *core.Ctx) {
 		}
 		c.Check(ok, "R1", "SimpleHTTPDef."+n+"/passes-method-url-body", p.Pos(f.Pos()), "NewRequestWithContext(ctx, method, url, body) receives the parameters unchanged", "the request is not built from the given method/url/body parameters")
 		// the given header (and Content-Type) reach the request before it is sent
-		okH, dH := c17appliesHeader(p, f, n == "DoNewRequestWithBodyOptions")
+		// (an entry point that only hands all its parameters on - plus constants for the missing ones - is read in the
+		// function doing the work)
+		impl := core.SameParamsImpl(p, f)
+		okH, dH := c17appliesHeader(p, impl, n == "DoNewRequestWithBodyOptions" || len(impl.Params) > len(f.Params))
 		c.Check(okH, "R2", "SimpleHTTPDef."+n+"/applies-header", p.Pos(f.Pos()), dH, dH)
 	}
 	verbOf := func(name string) string {
